@@ -85,6 +85,9 @@ func init() {
 			for i, c := range cells {
 				out = append(out, sp("C16", fmt.Sprintf("cell/%d/%s/%s/%s/%s/%s/%s", i, c["cookie"], c["hc"], c["muxenv"], c["proto"], c["tlsm"], c["ln"]), seed, c))
 			}
+			for _, cc := range c03Confs {
+				out = append(out, sp("C16", "serve-twice/"+confLabel(cc), seed, cp(cc, "servetwice", "1")))
+			}
 			n := 800
 			if tier == "thorough" {
 				n = 150000
@@ -104,7 +107,60 @@ func init() {
 	})
 }
 
+// runC16ServeTwice: the plugin's main calls Serve again after the first Serve
+// returned (the host asked it to shut down): whatever the second one does, the
+// plugin's real stdout carries the one handshake line the host was given.
+func runC16ServeTwice(r *h.Run) {
+	w := r.W
+	c := r.ConfFromParams()
+	ctx := "conf=" + c.String() + " serve-called-twice"
+	var mu sync.Mutex
+	var raw []byte
+	w.OnPipeWrite = func(pipe string, p *k.Proc, data []byte) {
+		if pipe == "stdout.plugin" {
+			mu.Lock()
+			raw = append(raw, data...)
+			mu.Unlock()
+		}
+	}
+	serves := 0
+	c.PluginMain = func(serve func()) {
+		serves++
+		serve()
+		serves++
+		serve()
+	}
+	r.InstallPlugin(&c)
+	cl := r.NewClient(c)
+	o := r.DoNoHang("Client+Dispense", 120*time.Second, ctx, func() (any, error) {
+		cp, err := cl.Client()
+		if err != nil {
+			return nil, err
+		}
+		return cp.Dispense(h.PluginName)
+	})
+	if o.Err != nil || o.Hung {
+		r.Violate("setup", "connect "+ctx, fmt.Sprint(o.Err))
+		return
+	}
+	r.DoNoHang("Kill", 150*time.Second, ctx, func() (any, error) { cl.Kill(); return nil, nil })
+	time.Sleep(3 * time.Second)
+	mu.Lock()
+	out := string(raw)
+	mu.Unlock()
+	if serves >= 2 {
+		w.Probe("serve.second-call-reached")
+	}
+	if n := strings.Count(out, "\n"); n != 1 || strings.Count(out, "|") < 4 {
+		r.Violate("stdout-not-one-line", ctx, fmt.Sprintf("raw stdout of the plugin process: %q", firstN(out, 300)))
+	}
+}
+
 func runC16(r *h.Run) {
+	if r.Spec.P("servetwice", "") == "1" {
+		runC16ServeTwice(r)
+		return
+	}
 	w := r.W
 	cookie, hc, muxenv := r.Spec.P("cookie", "right"), r.Spec.P("hc", "ok"), r.Spec.P("muxenv", "unset")
 	proto, tlsm, ln := r.Spec.P("proto", "netrpc"), r.Spec.P("tlsm", "none"), r.Spec.P("ln", "unix")
